@@ -562,8 +562,10 @@ def HookDecl.effective (h : HookDecl) : HookBindings :=
 /-- **The property for one execution**: (1) the keys of `snapshots` of every context are exactly
 the declared includeSnapshotsFrom of its binding plus the kubernetes bindings of its group, each
 once; (2) a binding's snapshot is the same list wherever it appears in the execution, including as
-the `objects` of its Synchronization context. -/
-def execExact (h : HookDecl) (obs : List ExecObs) : Bool :=
+the `objects` of its Synchronization context; (3) every such list is what a read of that binding's
+monitor returned during this execution (`reads`; each read is judged against the cluster by its own
+`oracle snap` line), the empty list when the monitor does not exist. -/
+def execExact (h : HookDecl) (reads : List (Nat × Option Snap)) (obs : List ExecObs) : Bool :=
   let all : List (Nat × Snap) :=
     (obs.map (·.snapshots)).flatten ++
       (obs.filter (fun o => o.btype == .kubernetes && o.isSync)).map (fun o => (o.binding, o.objects))
@@ -574,6 +576,7 @@ def execExact (h : HookDecl) (obs : List ExecObs) : Bool :=
     let keys := o.snapshots.map (·.1)
     keys.all (want.contains ·) && want.all (keys.contains ·) &&
     (keys.zipIdx.all (fun p => (keys.take p.2).all (· != p.1)))) &&
-  all.all (fun p => all.all (fun q => p.1 != q.1 || p.2 == q.2))
+  all.all (fun p => all.all (fun q => p.1 != q.1 || p.2 == q.2)) &&
+  all.all (fun p => reads.any (fun r => r.1 == p.1 && r.2.getD [] == p.2))
 
 end ShellOp.Snapshot
